@@ -29,6 +29,7 @@ type Flow struct {
 	ThroughCalls map[string]bool // qualified callee names summarised by their return values
 	ThroughInPkg bool            // summarise every in-package static callee by its return values
 	StopAtField  func(*types.Var) bool // if set and true, a load of that field is a leaf (default: all field loads are leaves)
+	CallerFilter func(*ssa.Function) bool // if set, only call sites in these functions contribute arguments to a parameter
 	maxDepth     int
 }
 
@@ -77,6 +78,15 @@ func (f *Flow) walk(v ssa.Value, seen map[ssa.Value]bool, out *[]Origin, depth i
 			fn := x.Parent()
 			idx := paramIndex(fn, x)
 			sites := f.P.callers[fn]
+			if f.CallerFilter != nil {
+				var kept []*CallSite
+				for _, cs := range sites {
+					if f.CallerFilter(rootFn(cs.Caller)) {
+						kept = append(kept, cs)
+					}
+				}
+				sites = kept
+			}
 			if len(sites) > 0 && idx >= 0 {
 				for _, cs := range sites {
 					args := cs.Instr.Common().Args
